@@ -80,23 +80,26 @@ def zipKeys (defs : List FieldJob) (outs : List Out) : List (String × Res) :=
     | .error (.multi es) => .error es
     | .error (.raw k t m x) => .error [⟨[], [], t, m, x, k⟩])
 
+/-- `execute_fields_serially` done: the dictionary, or the errors of the field that raised -/
+def finishSerial : Except (List GErr) (List (String × PyVal)) → TTree
+  | .ok kvs => .done (.ok (.dict kvs))
+  | .error es => .done (raisedOf es)
+
+/-- the gathered (concurrent) fields are back -/
+def finishGather (defs conc : List FieldJob) (kv1 : List (String × PyVal)) (outs : List Out) : TTree :=
+  match gatherKV (zipKeys conc outs) with
+  | .error es => .done (raisedOf es)
+  | .ok kv2 => .done (.ok (.dict (orderBy defs (kv1 ++ kv2))))
+
+/-- `execute_fields` after the inline (non-concurrent) fields: gather the concurrent ones -/
+def afterInline (f : FieldJob → TTree) (defs : List FieldJob) : Except (List GErr) (List (String × PyVal)) → TTree
+  | .error es => .done (raisedOf es)
+  | .ok kv1 => .gather ((defs.filter fun d => d.2.2.parentConc).map f) (finishGather defs (defs.filter fun d => d.2.2.parentConc) kv1)
+
 def executeFieldsT (rec : RecT) (fuel : Nat) (ctx : Ctx) (tn : String) (parent : PyVal) (path : List PathSeg)
     (defs : List FieldJob) (serial : Bool) : TTree :=
-  let f := fieldT rec fuel ctx tn parent path
-  if serial then
-    serialT f defs [] fun r =>
-      match r with
-      | .ok kvs => .done (.ok (.dict kvs))
-      | .error es => .done (raisedOf es)
-  else
-    serialT f (defs.filter fun d => !d.2.2.parentConc) [] fun r1 =>
-      match r1 with
-      | .error es => .done (raisedOf es)
-      | .ok kv1 =>
-        .gather ((defs.filter fun d => d.2.2.parentConc).map f) fun outs =>
-          match gatherKV (zipKeys (defs.filter fun d => d.2.2.parentConc) outs) with
-          | .error es => .done (raisedOf es)
-          | .ok kv2 => .done (.ok (.dict (orderBy defs (kv1 ++ kv2))))
+  if serial then serialT (fieldT rec fuel ctx tn parent path) defs [] finishSerial
+  else serialT (fieldT rec fuel ctx tn parent path) (defs.filter fun d => !d.2.2.parentConc) [] (afterInline (fieldT rec fuel ctx tn parent path) defs)
 
 def completeNamedT (rec : RecT) (fuel : Nat) (ctx : Ctx) (tn pt fname : String) (nodes : List Selection)
     (path : List PathSeg) (v : PyVal) : TTree :=
